@@ -153,6 +153,8 @@ void scen_signals(void)
 	choose_rcu_knobs(1);
 	usim_signal_handler(10, handler);
 	usim_signal_handler(12, handler);
+	/* handlers only ever run on registered threads: the library's own threads are created with signals blocked */
+	usim_require_library_threads_block_signals(1);
 	nthreads = (int) usim_param("nthreads", 1 + rnd(4));
 	usim_describe("{\"flavor\":\"%s\",\"threads\":[", F->name);
 	for (t = 0; t < nthreads; t++) {
